@@ -1682,3 +1682,141 @@ pub fn c05case(args: &[String]) {
         }
     }
 }
+
+// ---------------------------------------------------------------------------------------------
+// C11: window limits
+// ---------------------------------------------------------------------------------------------
+
+fn rank_to_u64(r: &Value) -> u64 {
+    let d = r[0].as_i64().unwrap();
+    let delta = r[1].as_i64().unwrap();
+    if d < 0 {
+        return delta as u64;
+    }
+    let s = window_size(d as u8);
+    match delta {
+        2 => u64::MAX,
+        k => (s as i128 + k as i128) as u64,
+    }
+}
+
+/// c11exec <cases.ndjson> <report.json>
+pub fn c11exec(args: &[String]) {
+    quiet_panics();
+    let f = std::io::BufReader::new(std::fs::File::open(&args[0]).unwrap());
+    let (mut n, mut bad, mut skipped) = (0u64, 0u64, 0u64);
+    let mut mism: Vec<Value> = vec![];
+    let mut classes = std::collections::BTreeMap::<String, u64>::new();
+    let mut samples: Vec<Value> = vec![];
+    let good = build(&frame_set("core")[0]).bytes;
+    for line in f.lines() {
+        let c: Value = serde_json::from_str(&line.unwrap()).unwrap();
+        n += 1;
+        let single = c["single"].as_bool().unwrap();
+        let requested = rank_to_u64(&c["requested"]);
+        let limit = rank_to_u64(&c["limit"]);
+        let exp_accept = c["expect"]["accept"].as_bool().unwrap();
+        let exp_max = rank_to_u64(&c["expect"]["max"]);
+        let front = c["front"].as_str().unwrap();
+        let hist = c["history"].as_str().unwrap();
+        // the frame: header + one empty raw last block
+        let mut fr = vec![0x28, 0xB5, 0x2F, 0xFD];
+        if single {
+            fr.push(0xE0); // FCS 8 bytes, single segment
+            fr.extend_from_slice(&requested.to_le_bytes());
+        } else {
+            fr.push(0x00);
+            fr.push(c["desc"].as_u64().unwrap() as u8);
+        }
+        fr.extend_from_slice(&[0x01, 0x00, 0x00]);
+        // accepting a window pre-allocates it when the decoder was used before: only affordable for moderate sizes
+        let reuse = hist != "first" && front != "stream_new" && front != "stream_new_limit";
+        if exp_accept && reuse && requested > (64 << 20) {
+            skipped += 1;
+            continue;
+        }
+        if front == "from_to" && hist != "first" {
+            // decode_from_to initialises a frame only on an unused decoder
+            skipped += 1;
+            continue;
+        }
+        *classes.entry(format!("{}:{}", front, if exp_accept { "accept" } else { "reject" })).or_insert(0) += 1;
+        let r = std::panic::catch_unwind(std::panic::AssertUnwindSafe(|| -> Result<(), String> {
+            let mut dec = FrameDecoder::new();
+            if front != "stream_new" && front != "stream_new_limit" {
+                match hist {
+                    "after_ok" => {
+                        let mut o = vec![0u8; 4096];
+                        dec.decode_all(&good, &mut o).map_err(|e| format!("history frame failed: {e}"))?;
+                    }
+                    "after_fail" => {
+                        let mut o = vec![0u8; 4096];
+                        let _ = dec.decode_all(&good[..good.len() - 3], &mut o);
+                    }
+                    _ => {}
+                }
+                // the limit under test is configured after the history (which needs an ordinary limit)
+                dec.set_max_window_size(limit);
+                if dec.max_window_size() != exp_max {
+                    return Err(format!("max_window_size() is {} after set_max_window_size({limit}), specified {exp_max}", dec.max_window_size()));
+                }
+            }
+            crate::alloc_reset_peak();
+            let res: Result<(), FrameDecoderError> = match front {
+                "reset" => dec.reset(&fr[..]),
+                "init" => dec.init(&fr[..]),
+                "decode_all" => {
+                    let mut o = vec![0u8; 16];
+                    crate::alloc_reset_peak();
+                    dec.decode_all(&fr, &mut o).map(|_| ())
+                }
+                "from_to" => {
+                    let mut o = vec![0u8; 16];
+                    crate::alloc_reset_peak();
+                    dec.decode_from_to(&fr, &mut o).map(|_| ())
+                }
+                "stream_new" => StreamingDecoder::new(&fr[..]).map(|_| ()),
+                "stream_new_limit" => StreamingDecoder::new_with_max_window_size(&fr[..], limit).map(|_| ()),
+                "stream_with_decoder" => StreamingDecoder::new_with_decoder(&fr[..], &mut dec).map(|_| ()),
+                other => return Err(format!("unknown front end {other}")),
+            };
+            let biggest = crate::alloc_biggest() as u64;
+            match (res, exp_accept) {
+                (Ok(()), true) => Ok(()),
+                (Ok(()), false) => Err(format!("accepted a frame declaring {requested} bytes with limit {limit}")),
+                (Err(FrameDecoderError::WindowSizeTooBig { requested: rq, max }), false) => {
+                    if rq != requested || max != exp_max {
+                        return Err(format!("WindowSizeTooBig reports requested {rq} max {max}, specified requested {requested} max {exp_max}"));
+                    }
+                    if biggest >= requested.min(64 * 1024).max(1024) {
+                        return Err(format!("an allocation of {biggest} bytes happened before the frame was refused"));
+                    }
+                    Ok(())
+                }
+                (Err(e), false) => {
+                    // a window outside the legal range may be refused by the header check instead
+                    match e {
+                        FrameDecoderError::FrameHeaderError(_) | FrameDecoderError::FailedToInitialize(_) => Ok(()),
+                        other => Err(format!("refused with {other:?} instead of WindowSizeTooBig")),
+                    }
+                }
+                (Err(e), true) => Err(format!("refused ({e}) a frame declaring {requested} bytes with limit {limit}")),
+            }
+        }));
+        let e = match r {
+            Err(p) => Some(format!("panic: {}", panic_msg(p))),
+            Ok(Err(e)) => Some(e),
+            Ok(Ok(())) => None,
+        };
+        if let Some(e) = e {
+            bad += 1;
+            if mism.len() < 15 {
+                mism.push(json!({"case": c, "requested": requested, "limit": limit, "frame_hex": hex(&fr), "error": e}));
+            }
+        }
+        if samples.len() < 3 && n % 977 == 1 {
+            samples.push(c.clone());
+        }
+    }
+    write_json(&args[1], &json!({"cases": n, "skipped": skipped, "mismatches": bad, "first": mism, "classes": classes, "samples": samples}));
+}
